@@ -465,6 +465,12 @@ class ndarray:
     def __floordiv__(self, o):
         return self._binop(o, operator.floordiv)
 
+    def __rfloordiv__(self, o):
+        return self._binop(o, operator.floordiv, rev=True)
+
+    def __rmod__(self, o):
+        return self._binop(o, operator.mod, rev=True)
+
     def __mod__(self, o):
         return self._binop(o, operator.mod)
 
@@ -703,6 +709,62 @@ def linspace(start, stop, num=50):
     out = [start + i * step for i in range(num)]
     out[-1] = stop
     return ndarray(out, (num,), float64)
+
+
+def where(cond, a=None, b=None):
+    if a is None and b is None:
+        return nonzero(cond)
+    c = asarray(cond) if isinstance(cond, (ndarray, list, tuple)) else None
+    if c is None:
+        return a if bool(cond) else b
+    n = len(c._d)
+    av = asarray(a)._d if isinstance(a, (ndarray, list, tuple)) else [a] * n
+    bv = asarray(b)._d if isinstance(b, (ndarray, list, tuple)) else [b] * n
+    out = [x if bool(k) else y for k, x, y in zip(c._d, av, bv)]
+    return ndarray(out, c.shape, _KINDS[_infer_kind(out)])
+
+
+def ndenumerate(arr):
+    a = asarray(arr)
+    if a.ndim == 1:
+        return iter([((i,), v) for i, v in enumerate(a._d)])
+    if a.ndim == 0:
+        return iter([((), a._d[0])])
+    r, c = a.shape
+    return iter([((i, j), a._d[i * c + j]) for i in range(r) for j in range(c)])
+
+
+def append(arr, values, axis=None):
+    a = asarray(arr)
+    v = asarray(values) if isinstance(values, (ndarray, list, tuple)) else asarray([values])
+    return concatenate((a, v))
+
+
+class errstate:
+    """np.errstate(...): floating-point warnings do not exist here; a no-op context."""
+
+    def __init__(self, **kw):
+        pass
+
+    def __enter__(self):
+        return self
+
+    def __exit__(self, *a):
+        return False
+
+
+def empty_like(a, dtype=None):
+    a = asarray(a)
+    return zeros(a.shape, dtype if dtype is not None else a.dtype)
+
+
+zeros_like = empty_like
+
+
+def full(shape, value, dtype=None):
+    z = zeros(shape, dtype if dtype is not None else float)
+    z._d[:] = [z._coerce(value)] * len(z._d)
+    return z
 
 
 def arange(*args):
@@ -1063,6 +1125,9 @@ class _Shim:
         self.float64 = float64
         self.integer = integer
         self.floating = floating
+        self.errstate = errstate
+        for name in ('append', 'empty_like', 'zeros_like', 'full', 'where', 'ndenumerate'):
+            setattr(self, name, g[name])
         for name in ('array', 'asarray', 'zeros', 'empty', 'ones', 'linspace', 'arange', 'diff',
                      'concatenate', 'cumsum', 'nonzero', 'argwhere', 'minimum', 'maximum',
                      'isfinite', 'isnan', 'isscalar', 'ceil', 'floor', 'absolute', 'dot',
